@@ -43,6 +43,7 @@ type Config struct {
 	Schnorr    bool     // relayer bitcoin key type
 	DiskDB     bool     // goleveldb instead of memdb (needed for restarts from disk)
 	GenTime    time.Time
+	RealTime   bool // block times are the wall clock at proposal time (genesis time = now): the chain's clock tracks the machine's, as on a live network
 
 	Locking func(*lockingtypes.GenesisState)
 	Relayer func(*relayertypes.GenesisState)
@@ -106,6 +107,9 @@ func New(cfg Config) (*World, error) {
 	}
 	if cfg.NRelayers == 0 {
 		cfg.NRelayers = 1
+	}
+	if cfg.GenTime.IsZero() && cfg.RealTime {
+		cfg.GenTime = time.Now().UTC().Truncate(time.Millisecond)
 	}
 	if cfg.GenTime.IsZero() {
 		cfg.GenTime = time.Unix(1_700_000_000, 0).UTC()
